@@ -3,6 +3,7 @@ package rules
 import (
 	"fmt"
 	"go/token"
+	"go/types"
 	"strings"
 
 	"golang.org/x/tools/go/ssa"
@@ -13,7 +14,7 @@ import (
 func init() {
 	Register(&Property{
 		ID: "C11",
-		Explanation: "Decides the two structural halves of 'a configuration that type-checks cannot fail at check time': (R11.1) every AST node kind and operator the parser can construct has a case in every dispatch of the check engine (no 'not implemented' for parsed configurations); (R11.2) every AST field that the engine later consumes as a relation or namespace name has its deferred type check registered where the node is built, on the token the field was taken from (computed subject set and traverse relation -> relation exists in the current namespace; traverse target relation -> every type of the traversed relation has it; subject types -> namespace exists / namespace has relation); (R11.3) parse runs the deferred checks whenever no syntax error occurred and runs every registered check; (R11.4) the deferred checks that quantify over all types of a relation have no early exit on success (every type is checked); (R11.5) the relations collected for a class are only ever appended to, so no declared relation or permission is lost from the AST the engine evaluates. " +
+		Explanation: "Decides the two structural halves of 'a configuration that type-checks cannot fail at check time': (R11.1) every AST node kind and operator the parser can construct has a case in every dispatch of the check engine (no 'not implemented' for parsed configurations); (R11.2) every AST field that the engine later consumes as a relation or namespace name has its deferred type check registered where the node is built, on the token the field was taken from (computed subject set and traverse relation -> relation exists in the current namespace; traverse target relation -> every type of the traversed relation has it; subject types -> namespace exists / namespace has relation); (R11.3) parse runs the deferred checks whenever no syntax error occurred and runs every registered check; (R11.4) the deferred checks that quantify over all types of a relation have no early exit on success (every type is checked); (R11.6) a deferred check reads no parser field that parsing overwrites as it goes (the current namespace, the look-ahead) and writes nothing but the error list, so its outcome depends only on the finished parse; (R11.5) the relations collected for a class are only ever appended to, so no declared relation or permission is lost from the AST the engine evaluates. " +
 			"Not decided: that the type checker's rule for SubjectSet<T,R>-typed traversals equals what the engine evaluates (a semantic comparison of two algorithms; known to differ, see DESIGN.md F14).",
 		Assumptions: []string{"the slot table field -> required check constructor (DESIGN.md R11.2) is the specification of which check guards which field"},
 		Run:         runC11,
@@ -26,6 +27,7 @@ func runC11(c *Ctx) {
 	r113(c)
 	r114(c)
 	r115(c)
+	r116(c)
 }
 
 // itemOfVal: v is <item>.Val ; returns the origin of the item value.
@@ -258,7 +260,7 @@ func r113(c *Ctx) {
 			call = ci
 		}
 	})
-	ok := false
+	ok, extra := false, false
 	if call != nil {
 		for _, cd := range core.CondsAt(call.Block()) {
 			if op, x, y, isCmp := core.BinCmp(cd.V); isCmp {
@@ -266,7 +268,12 @@ func r113(c *Ctx) {
 					if lc, isLen := x.(*ssa.Call); isLen {
 						if bi, ok2 := lc.Call.Value.(*ssa.Builtin); ok2 && bi.Name() == "len" {
 							if (op == token.EQL && cd.True) || (op == token.NEQ && !cd.True) {
-								ok = true
+								// and nothing else decides: the call sits directly on that edge
+								if call.Block().Idom() == cd.At {
+									ok = true
+								} else {
+									extra = true
+								}
 							}
 						}
 					}
@@ -276,7 +283,7 @@ func r113(c *Ctx) {
 		// the guarded call must be on every path to the return: the If block dominates the return and the other edge skips only when errors exist
 	}
 	r.Check(ok, "R11.3", core.FuncName(parse), "typeCheck when no syntax error", p.Pos(parse.Pos()),
-		"parse runs the deferred type checks exactly when no error was recorded", "parse does not run the deferred type checks on the error-free path: undeclared names are accepted")
+		"parse runs the deferred type checks exactly when no error was recorded", badR113(extra))
 	// typeCheck runs every check: a range loop with a dynamic call and no early exit
 	loopCall, earlyExit := false, false
 	core.Instrs(tc, func(b *ssa.BasicBlock, _ int, ins ssa.Instruction) {
@@ -392,5 +399,136 @@ func r115(c *Ctx) {
 	}
 	if n < 2 {
 		r.Undecide("R11.5", "", "stores to namespace.Relations", "", fmt.Sprintf("%d found, floor 2 (related, permits)", n))
+	}
+}
+
+func badR113(extra bool) string {
+	if extra {
+		return "the deferred type checks run only under a further condition besides 'no syntax error': documents for which that condition is false are accepted unchecked"
+	}
+	return "parse does not run the deferred type checks on the error-free path: undeclared names are accepted"
+}
+
+// ---- R11.6 deferred checks depend only on the finished parse -------------------------------------
+
+// r116: the deferred type checks run after the whole document was parsed. A
+// check (a closure of type typeCheck and what it calls with the parser) may
+// read the accumulated result, but (a) not a field that parsing overwrites as
+// it goes (the "current namespace", the look-ahead): at check time it holds
+// the value of the last class, not of the class the check was registered in;
+// (b) it writes nothing but the error list: a check whose outcome depends on
+// what another check stored is order dependent and can skip a look-up.
+func r116(c *Ctx) {
+	p, r := c.P, c.R
+	parserT := p.LookupType(core.KetoMod+"/"+schemaRel, "parser")
+	tcT := p.LookupType(core.KetoMod+"/"+schemaRel, "typeCheck")
+	if parserT == nil || tcT == nil {
+		r.Undecide("R11.6", "", "anchor parser/typeCheck types", "", "not found")
+		return
+	}
+	tcSig, _ := tcT.Underlying().(*types.Signature)
+	isParserPtr := func(t types.Type) bool {
+		pt, ok := t.Underlying().(*types.Pointer)
+		return ok && types.Identical(pt.Elem(), parserT)
+	}
+	// deferred code: closures with the typeCheck signature, and their static callees that take the parser
+	deferred := map[*ssa.Function]bool{}
+	var work []*ssa.Function
+	for _, fn := range p.KetoFuncs(schemaRel) {
+		if fn.Parent() != nil && tcSig != nil && core.SigIdentical(fn.Signature, tcSig) {
+			deferred[fn] = true
+			work = append(work, fn)
+		}
+	}
+	for len(work) > 0 {
+		fn := work[0]
+		work = work[1:]
+		core.Instrs(fn, func(_ *ssa.BasicBlock, _ int, ins ssa.Instruction) {
+			if ci, ok := ins.(ssa.CallInstruction); ok {
+				if sc := ci.Common().StaticCallee(); sc != nil && !deferred[sc] && core.FuncPkg(sc) != nil && core.RelPath(core.FuncPkg(sc).Path()) == schemaRel {
+					takes := false
+					for _, par := range sc.Params {
+						if isParserPtr(par.Type()) {
+							takes = true
+						}
+					}
+					if takes {
+						deferred[sc] = true
+						work = append(work, sc)
+					}
+				}
+			}
+		})
+	}
+	// fields overwritten during parsing: a Store to the field (outside the deferred code and constructors)
+	// whose value is not an append to the field itself
+	overwritten := map[*types.Var]bool{}
+	for _, fn := range p.KetoFuncs(schemaRel) {
+		if deferred[fn] || strings.HasPrefix(core.Outermost(fn).Name(), "Parse") || strings.HasPrefix(core.Outermost(fn).Name(), "new") {
+			continue
+		}
+		core.Instrs(fn, func(_ *ssa.BasicBlock, _ int, ins ssa.Instruction) {
+			st, ok := ins.(*ssa.Store)
+			if !ok {
+				return
+			}
+			fa, ok := st.Addr.(*ssa.FieldAddr)
+			if !ok || !isParserPtr(fa.X.Type()) {
+				return
+			}
+			fv := fieldVarOf(fa)
+			if fv == nil {
+				return
+			}
+			if call, ok := st.Val.(*ssa.Call); ok {
+				if bi, ok := call.Call.Value.(*ssa.Builtin); ok && bi.Name() == "append" {
+					return // accumulated, not overwritten
+				}
+			}
+			overwritten[fv] = true
+		})
+	}
+	n := 0
+	for fn := range deferred {
+		var bad []string
+		core.Instrs(fn, func(_ *ssa.BasicBlock, _ int, ins ssa.Instruction) {
+			fa, ok := ins.(*ssa.FieldAddr)
+			if !ok || !isParserPtr(fa.X.Type()) || fa.Referrers() == nil {
+				return
+			}
+			fv := fieldVarOf(fa)
+			if fv == nil {
+				return
+			}
+			for _, ref := range *fa.Referrers() {
+				switch x := ref.(type) {
+				case *ssa.Store:
+					if x.Addr == ssa.Value(fa) && fv.Name() != "errors" {
+						bad = append(bad, fmt.Sprintf("writes parser.%s at %s", fv.Name(), p.Pos(x.Pos())))
+					}
+				case *ssa.FieldAddr:
+					if overwritten[fv] {
+						bad = append(bad, fmt.Sprintf("reads parser.%s at %s, which parsing overwrites as it goes: at check time it holds the value of the last class parsed", fv.Name(), p.Pos(x.Pos())))
+					}
+				case *ssa.UnOp:
+					if overwritten[fv] {
+						bad = append(bad, fmt.Sprintf("reads parser.%s at %s, which parsing overwrites as it goes: at check time it holds the value of the last class parsed", fv.Name(), p.Pos(x.Pos())))
+					}
+					if x.Referrers() != nil {
+						for _, r2 := range *x.Referrers() {
+							if mu, ok := r2.(*ssa.MapUpdate); ok && mu.Map == ssa.Value(x) {
+								bad = append(bad, fmt.Sprintf("updates the map parser.%s at %s", fv.Name(), p.Pos(mu.Pos())))
+							}
+						}
+					}
+				}
+			}
+		})
+		n++
+		r.Check(len(bad) == 0, "R11.6", core.FuncName(fn), "deferred check reads only the finished parse", p.Pos(fn.Pos()),
+			"reads no field that parsing overwrites and writes nothing but the error list", strings.Join(dedupe(bad), "; ")+": the outcome of the check depends on where parsing ended or on what another check stored")
+	}
+	if n < 4 {
+		r.Undecide("R11.6", "", "deferred checks", "", fmt.Sprintf("%d found (floor 4)", n))
 	}
 }
